@@ -22,7 +22,7 @@ FinalInfo(s) == LET f == Final(s) IN
 \* s.Stdout is), token sequences by their lengths.
 OwnerAbs(w) == IF w <= 0 THEN w ELSE IF w = S.waiter \/ w = S.reqWaiter THEN 2 ELSE 1
 AbsView == [S EXCEPT !.last = Ev("", "", 0), !.out = <<>>, !.done = {}, !.ka = "", !.ioRace = FALSE, !.ns = 0, !.nc = 0,
-                     !.exits = <<>>, !.nStartOk = 0, !.sentOut = <<>>, !.sentErr = <<>>, !.nTok = 0,
+                     !.exits = <<>>, !.nStartOk = 0, !.sentOut = <<>>, !.sentErr = <<>>, !.nTok = 0, !.unsv = 0,
                      !.calls = IF S.calls = <<>> THEN 0 ELSE 1,
                      !.reqWaiter = IF S.reqWaiter = 0 THEN "" ELSE S.calls[S.reqWaiter].k,
                      !.waiter = IF S.waiter = 0 THEN 0 ELSE 1,
